@@ -69,22 +69,19 @@ Next == UNCHANGED c
 Spec == Init /\ [][Next]_vars
 
 Pre == StateOf(c.m, c.w, c.k)
-PostIdeal == Apply(Pre, c.o, TRUE)      \* intended retry: requeue only what the retired proposal still owns
-PostCode  == Apply(Pre, c.o, FALSE)     \* retry as coded
+Post == Apply(Pre, c.o, TRUE)
+PostAll == Apply(Pre, c.o, FALSE)     \* witness variant: retry requeues every transaction
 
-\* the property holds for every step of the intended specification ...
-PropertyHolds == StepOK(Pre, c.o, PostIdeal)
-\* ... and for the specification of the code as it is, except exactly the known finding
-PropertyOrKnown == StepOK(Pre, c.o, PostCode) \/ KnownFinding_C24_1(Pre, c.o, PostCode)
-\* the finding is confined to retryCosiSnapshot and is reachable (witness: must be violated)
-NoKnown == ~(~StepOK(Pre, c.o, PostCode) /\ KnownFinding_C24_1(Pre, c.o, PostCode))
+\* the property holds for every step of the specification
+PropertyHolds == StepOK(Pre, c.o, Post)
 \* expiry does not depend on the iteration order of the Go map
-OrderFree == c.o.op = "Expire" => /\ ExpireOrderFree(Pre, c.o.now, c.o.base, TRUE)
-                                  /\ ExpireOrderFree(Pre, c.o.now, c.o.base, FALSE)
-\* non-vacuity: a step that re-queues something / a step that must not re-queue an owned one
-ReachRequeued == ~(\E t \in TxV : ~Eligible(Pre, t) /\ Eligible(PostCode, t))
+OrderFree == c.o.op = "Expire" => ExpireOrderFree(Pre, c.o.now, c.o.base, TRUE)
+\* non-vacuity (each must be violated): the property tells the two retry variants apart, some step
+\* re-queues something, some step must leave an owned transaction alone
+RequeueAllBreaks == StepOK(Pre, c.o, PostAll)
+ReachRequeued == ~(\E t \in TxV : ~Eligible(Pre, t) /\ Eligible(Post, t))
 ReachOwnedKept == ~(\E t \in TxV : OwnedByActive(Pre, c.o, t) /\ t \in RetiredTxs(Pre, c.o)
-                                     /\ ~Pre.final[t] /\ HasBody(Pre, t) /\ ~Eligible(PostIdeal, t))
+                                     /\ ~Pre.final[t] /\ HasBody(Pre, t) /\ ~Eligible(Post, t))
 
 EmitCase == PrintT("CASE " \o ToJson([m |-> c.m, w |-> c.w, k |-> c.k, o |-> c.o]))
 =============================================================================
